@@ -61,6 +61,7 @@ static TTY_EVENT_AUTOMATA: LazyLock<MatcherAutomata<TerminalEvent>> = LazyLock::
                 .map(|c| TerminalEvent::Key(KeyName::Char(c).into())),
         ),
         Box::new(BracketedPasteMatcher),
+        Box::new(ModifiedKeyMatcher),
     ])
 });
 static TTY_COMMAND_AUTOMATA: LazyLock<MatcherAutomata<TerminalCommand>> = LazyLock::new(|| {
@@ -1037,6 +1038,87 @@ impl Matcher for BracketedPasteMatcher {
     }
 }
 
+/// Cursor, editing and function keys with modifiers
+///
+/// `CSI 1 ; <1 + modifiers> {A,B,C,D,F,H,P,Q,S}` and `CSI <code> ; <1 + modifiers> ~`, where modifiers
+/// is the xterm / kitty keyboard protocol bit mask (shift 1, alt 2, ctrl 4, super 8, hyper 16,
+/// meta 32, caps lock 64, num lock 128). Modified F3 (`CSI 1 ; m R`) is ambiguous with the cursor
+/// position report and is only recognized for the classic masks, see [basic_events_nfa].
+#[derive(Debug)]
+struct ModifiedKeyMatcher;
+
+impl Matcher for ModifiedKeyMatcher {
+    type Item = TerminalEvent;
+
+    fn matcher(&self) -> Either<NFA<Void>, NFA<Self::Item>> {
+        let nfa = NFA::sequence([
+            NFA::from("\x1b["),
+            NFA::number(),
+            NFA::from(";"),
+            NFA::number(),
+            NFA::predicate(|b| matches!(b, b'A'..=b'D' | b'F' | b'H' | b'P' | b'Q' | b'S' | b'~')),
+        ]);
+        Either::Left(nfa)
+    }
+
+    fn decode(&self, data: &[u8]) -> Option<Self::Item> {
+        // "\x1b[{code};{1 + modifiers}{final}"
+        let mut nums = numbers_decode(&data[2..data.len() - 1], b';');
+        let code = nums.next()?;
+        let mode = nums.next()?.checked_sub(1)?;
+        if mode > 255 {
+            return None;
+        }
+        let name = match (data[data.len() - 1], code) {
+            (b'A', 1) => KeyName::Up,
+            (b'B', 1) => KeyName::Down,
+            (b'C', 1) => KeyName::Right,
+            (b'D', 1) => KeyName::Left,
+            (b'F', 1) => KeyName::End,
+            (b'H', 1) => KeyName::Home,
+            (b'P', 1) => KeyName::F(1),
+            (b'Q', 1) => KeyName::F(2),
+            (b'S', 1) => KeyName::F(4),
+            (b'~', code) => tilde_key(code)?,
+            _ => return None,
+        };
+        Some(TerminalEvent::Key(Key {
+            name,
+            mode: KeyMod::from_bits(mode as u32),
+        }))
+    }
+}
+
+/// Keys encoded as `CSI <code> ~`
+const TILDE_KEYS: [(KeyName, usize); 20] = [
+    (KeyName::Home, 1),
+    (KeyName::Insert, 2),
+    (KeyName::Delete, 3),
+    (KeyName::End, 4),
+    (KeyName::PageUp, 5),
+    (KeyName::PageDown, 6),
+    (KeyName::Insert, 7),
+    (KeyName::End, 8),
+    (KeyName::F(1), 11),
+    (KeyName::F(2), 12),
+    (KeyName::F(3), 13),
+    (KeyName::F(4), 14),
+    (KeyName::F(5), 15),
+    (KeyName::F(6), 17),
+    (KeyName::F(7), 18),
+    (KeyName::F(8), 19),
+    (KeyName::F(9), 20),
+    (KeyName::F(10), 21),
+    (KeyName::F(11), 23),
+    (KeyName::F(12), 24),
+];
+
+fn tilde_key(code: usize) -> Option<KeyName> {
+    TILDE_KEYS
+        .iter()
+        .find_map(|(name, key_code)| (*key_code == code).then_some(*name))
+}
+
 #[derive(Debug)]
 struct BasicEventsMatcher;
 
@@ -1109,37 +1191,9 @@ fn basic_events_nfa() -> NFA<TerminalEvent> {
         ));
     }
 
-    for (name, code) in [
-        (KeyName::Home, "1"),
-        (KeyName::Insert, "2"),
-        (KeyName::Delete, "3"),
-        (KeyName::End, "4"),
-        (KeyName::PageUp, "5"),
-        (KeyName::PageDown, "6"),
-        (KeyName::Insert, "7"),
-        (KeyName::End, "8"),
-        (KeyName::F(1), "11"),
-        (KeyName::F(2), "12"),
-        (KeyName::F(3), "13"),
-        (KeyName::F(4), "14"),
-        (KeyName::F(5), "15"),
-        (KeyName::F(6), "17"),
-        (KeyName::F(7), "18"),
-        (KeyName::F(8), "19"),
-        (KeyName::F(9), "20"),
-        (KeyName::F(10), "21"),
-        (KeyName::F(11), "23"),
-        (KeyName::F(12), "24"),
-    ]
-    .iter()
-    {
+    // modified forms are handled by [ModifiedKeyMatcher]
+    for (name, code) in TILDE_KEYS.iter() {
         cmds.push(basic_key(&format!("\x1b[{}~", code), *name));
-        for mode in 1..8 {
-            cmds.push(basic_key(
-                &format!("\x1b[{};{}~", code, mode + 1),
-                (*name, KeyMod::from_bits(mode)),
-            ));
-        }
     }
     for (name, code_empty, code) in [
         (KeyName::Up, "[", "A"),
@@ -1160,12 +1214,14 @@ fn basic_events_nfa() -> NFA<TerminalEvent> {
     .iter()
     {
         cmds.push(basic_key(&format!("\x1b{}{}", code_empty, code), *name));
-        for mode in 1..8 {
-            cmds.push(basic_key(
-                &format!("\x1b[1;{}{}", mode + 1, code),
-                (*name, KeyMod::from_bits(mode)),
-            ));
-        }
+    }
+    // `CSI 1 ; m R` is also a cursor position report (row 1, column m), modified F3 is only
+    // recognized for shift/alt/ctrl masks and takes priority over the report as a literal key
+    for mode in 1..8 {
+        cmds.push(basic_key(
+            &format!("\x1b[1;{}R", mode + 1),
+            (KeyName::F(3), KeyMod::from_bits(mode)),
+        ));
     }
 
     NFA::choice(cmds)
